@@ -582,8 +582,8 @@ func ruleRootReadonly(c *Ctx) {
 			case *ast.TypeAssertExpr:
 				if isDoc(x.X) && isEmptyInterface(c.typeOf(x.X)) {
 					handles = true
-					if f.Name() != "ResolveRef" {
-						bad = append(bad, "type assertion on a document value "+exprString(x.X)+" (gives typed, writable access to the shared document)")
+					if !c.typedAccessReadOnly(fd, x) {
+						bad = append(bad, "type assertion on a document value "+exprString(x.X)+" whose typed result is written through (gives writable access to the shared document)")
 					}
 				}
 			case *ast.CallExpr:
@@ -720,5 +720,78 @@ func (c *Ctx) reflectValueOnlyInspected(fd *ast.FuncDecl, call *ast.CallExpr) bo
 		}
 		return true
 	})
+	return ok
+}
+
+// typedAccessReadOnly: the typed value obtained from a type assertion / type switch on a document is only read:
+// no assignment, delete or pointer store goes through the variables bound to it.
+func (c *Ctx) typedAccessReadOnly(fd *ast.FuncDecl, ta *ast.TypeAssertExpr) bool {
+	bound := map[types.Object]bool{}
+	ast.Inspect(fd.Body, func(n ast.Node) bool {
+		switch x := n.(type) {
+		case *ast.TypeSwitchStmt:
+			holds := false
+			ast.Inspect(x.Assign, func(m ast.Node) bool {
+				if m == ast.Node(ta) {
+					holds = true
+				}
+				return true
+			})
+			if holds {
+				for _, cl := range x.Body.List {
+					if o := c.Info.Implicits[cl]; o != nil {
+						bound[o] = true
+					}
+				}
+			}
+		case *ast.AssignStmt:
+			if len(x.Rhs) == 1 && unparen(x.Rhs[0]) == ast.Expr(ta) {
+				if id, ok := x.Lhs[0].(*ast.Ident); ok && id.Name != "_" {
+					bound[c.objOf(id)] = true
+				}
+			}
+		}
+		return true
+	})
+	ok := true
+	ast.Inspect(fd.Body, func(n ast.Node) bool {
+		switch x := n.(type) {
+		case *ast.AssignStmt:
+			for _, l := range x.Lhs {
+				if p, isP := c.apath(l); isP && bound[p.Root] && (len(p.Steps) > 0 || isStar(l)) {
+					ok = false
+				}
+			}
+		case *ast.CallExpr:
+			if c.isBuiltin(x, "delete") && len(x.Args) > 0 {
+				if p, isP := c.apath(x.Args[0]); isP && bound[p.Root] {
+					ok = false
+				}
+			}
+			// handing the typed value to a decoder as its target would write it
+			if (c.isPkgFunc(x, "encoding/json", "Unmarshal") || c.isPkgFunc(x, "github.com/go-openapi/swag", "DynamicJSONToStruct")) && len(x.Args) == 2 {
+				if p, isP := c.apath(x.Args[1]); isP && bound[p.Root] {
+					ok = false
+				}
+			}
+		}
+		return true
+	})
+	if len(bound) == 0 {
+		// an assertion whose result is used in place: x.(T).f = v would be an assignment with a TypeAssertExpr base
+		ast.Inspect(fd.Body, func(n ast.Node) bool {
+			if as, isA := n.(*ast.AssignStmt); isA {
+				for _, l := range as.Lhs {
+					ast.Inspect(l, func(m ast.Node) bool {
+						if m == ast.Node(ta) {
+							ok = false
+						}
+						return true
+					})
+				}
+			}
+			return true
+		})
+	}
 	return ok
 }
